@@ -84,6 +84,18 @@ fn main() {
         r_c11::batch(&args[2]);
         return;
     }
+    if harness.starts_with("c01_handle_mir") {
+        let vals: Vec<u8> = args[2].split(',').filter_map(|x| x.trim().parse::<u64>().ok()).map(|x| x as u8).collect();
+        let v2 = vals.clone();
+        let out = std::panic::catch_unwind(move || r_c01::mir_script(&v2)).unwrap_or(Outcome {
+            reproduced: true,
+            role: "panic".into(),
+            scenario: String::new(),
+            detail: "VarlinkService::handle panicked".into(),
+        });
+        print(&out, &vals);
+        return;
+    }
     if harness.starts_with("c03_table_") {
         let vals: Vec<u8> = args[2].split(',').filter_map(|x| x.trim().parse::<u64>().ok()).map(|x| x as u8).collect();
         let v2 = vals.clone();
